@@ -496,6 +496,13 @@ def valid(e):
             return shp(e["l"]) == shp(e["r"])
         if c == "BlockDiag":
             return shp(e["base"])[0] == shp(e["base"])[1]
+        if c == "Interpolated":
+            # the base's batch shape must expand to the batch shape of the interpolation tensors
+            bb, ib = ob.shape_of(e["base"])[:-2], list(e["li"]["shape"][:-2])
+            try:
+                return list(torch.broadcast_shapes(tuple(bb), tuple(ib))) == ib
+            except RuntimeError:
+                return False
         if c == "Masked":
             return [len(e["row_mask"]["data"]), len(e["col_mask"]["data"])] == shp(e["base"])
         return True
